@@ -2,7 +2,7 @@
    tiling.  Property theorems only. *)
 From Coq Require Import List ZArith NArith Bool.
 From Pcfg Require Import Str Multiword Detect Segment SegCorr DetectProofsStr DetectProofsDrive DetectProofsSimple
-     DetectProofsMw DetectProofsSeg DetectProofsWeb DetectProofsInst.
+     DetectProofsMw DetectProofsSeg DetectProofsWeb DetectProofsKbd DetectProofsInst.
 From PcfgGen Require Import Consts_gen Unicode_gen.
 Import ListNotations.
 Open Scope Z_scope.
@@ -66,15 +66,27 @@ Theorem C05_sound_multiword : forall m s b ws,
   ws = [s] \/ (multi_ok c_lower c_threshold c_min_len m s ws /\ mwcount_c m s < c_threshold).
 Proof. exact (mw_parse_spec c_lower c_threshold c_min_len c_max_len side_min_len). Qed.
 
-(* ---- the pipeline.  PARTIAL: the keyboard-walk detector enters through the
-   explicit hypothesis c_kw_split_ok (a statement about the very function the
-   model runs).  Full statement = the same without this hypothesis. *)
-Theorem C05_tiling_partial :
-  c_kw_split_ok ->
+Theorem keyboard_split_ok :
+  forall pw, pw <> [] ->
+  exists sl f, detect_keyboard_walk c_isalpha c_isdigit c_lower c_kbs kb_false_positive_words c_min_run (length pw) pw
+               = Some (sl, f) /\ tiles c_pm pw sl /\ Forall c_sound sl.
+Proof. exact kw_c_ok. Qed.
+
+(* ---- the pipeline: for every state m of the multi-word detector and every
+   accepted (non-empty) password, parse does not raise, the sections tile the
+   password (a website section holds the lower-cased piece), every section is
+   non-empty, labelled, and its label is sound (c_sound: true length for
+   K/A/D/O; K = at least min_run keys pairwise adjacent on one layout, >= 2
+   character classes; Y = a listed prefix + two digits; X = a listed string;
+   A only letters; D only digits; O neither) *)
+Theorem C05_tiling :
   forall m pw, pw <> [] ->
   exists r, parse_c m pw = POk r /\ tiles c_pm pw (p_sections r) /\ Forall c_sound (p_sections r) /\
             Forall (fun y => snd y <> None) (p_sections r).
 Proof. exact parse_c_ok. Qed.
+
+Theorem C05_never_raises : forall m pw, pw <> [] -> parse_c m pw <> PErr.
+Proof. exact parse_c_never_raises. Qed.
 
 (* ---- why the repair was needed: the detectors as they were (searching
    section[0].lower(), slicing section[0]) on passwords with U+0130 *)
@@ -111,6 +123,6 @@ Example C05_demo :
 Proof. exact demo_parse. Qed.
 
 Print Assumptions split_driver_tiling.
-Print Assumptions C05_tiling_partial.
+Print Assumptions C05_tiling.
 Print Assumptions C05_sound_multiword.
 Print Assumptions C05_refuted_lower_0130_website.
